@@ -693,6 +693,18 @@ class SymInt(SymNum):
             return self * (1 << o)
         raise Abort("lshift by symbolic")
 
+    def bit_length(self):
+        """int.bit_length for |x| < 2^64 (one ite per bit)"""
+        t = self.t
+        c = ctx()
+        if c.decide(z3.Or(t >= 2**64, t <= -(2**64))):
+            raise Abort("bit_length beyond 64 bits")
+        a = z3.If(t >= 0, t, -t)
+        r = z3.IntVal(64)
+        for k in range(63, -1, -1):
+            r = z3.If(a < 2**k, z3.IntVal(k), r)
+        return SymInt(z3.simplify(r))
+
     def __rlshift__(self, o):
         n = self.__index__()
         return o << n
@@ -911,13 +923,32 @@ class Log2Of(Sym):
         self.t = None
 
     def __ceil__(self):
+        """ceil of the DOUBLE that math.log2(n) returns.  For 2^k < n < 2^(k+1) with d = n - 2^k:
+        d/2^k >= 2^-44: the excess over k is many ulps -- k+1 (the exact answer; every n <= 2^40);
+        k >= 53 and d <= 2^(k-53): n itself becomes the double 2^k (round to nearest, ties to even),
+        its log2 is exactly k -- k, one too few;
+        in between: the last place of the logarithm decides -- either (a free Boolean)."""
         n = self.n.t
         c = ctx()
-        if c.decide(z3.Or(n < 1, n > 2**40)):
-            raise Abort("ceil(log2(n)) outside the modelled range 1..2^40")
-        r = z3.IntVal(40)
-        for k in range(39, -1, -1):
-            r = z3.If(n <= 2**k, z3.IntVal(k), r)
+        if c.decide(z3.Or(n < 1, n > 2**63)):
+            raise Abort("ceil(log2(n)) outside the modelled range 1..2^63")
+        c.fresh_n += 1
+        flip = z3.Bool(f"_log2_last_place_{c.fresh_n}")
+        _register(f"_log2_last_place_{c.fresh_n}", flip, "bool")
+        r = z3.IntVal(63)
+        for k in range(62, -1, -1):
+            hi = 2 ** (k + 1)
+            d = n - 2**k
+            if k <= 43:
+                inner = z3.IntVal(k + 1)  # d >= 1 >= 2^(k-44)
+            else:
+                sure_right = d * 2**44 >= 2**k
+                sure_wrong = z3.And(k >= 53, d <= 2 ** max(k - 53, 0)) if k >= 53 else z3.BoolVal(False)
+                inner = z3.If(sure_right, z3.IntVal(k + 1), z3.If(sure_wrong, z3.IntVal(k), z3.If(flip, z3.IntVal(k), z3.IntVal(k + 1))))
+            r = z3.If(n < hi, inner, r) if k > 0 else z3.If(n <= 1, z3.IntVal(0), z3.If(n < hi, inner, r))
+        # exact powers of two are exact
+        for k in range(0, 64):
+            r = z3.If(n == 2**k, z3.IntVal(k), r)
         return SymInt(z3.simplify(r))
 
     def __floor__(self):
